@@ -879,6 +879,9 @@ class Interp:
         key = (frame.func.qualname if frame.func else "", ordinal)
         spec = self.loops.get(key)
         if spec is None:
+            from .summaries import try_summarise
+            if try_summarise(self, st, frame, seq):
+                return
             raise Unsupported(f"loop #{ordinal} of {key[0]} over a symbolic-length sequence has no invariant")
         self.stats["loops_by_invariant"] += 1
         nz = zint(seq.length)
